@@ -175,7 +175,7 @@ def interp_stacks():
     }
 
 
-EXC = (AssertionError, ValueError, IndexError, KeyError, TypeError, NotImplementedError, AttributeError, RecursionError)
+EXC = (Exception,)       # whatever the toolkit raises is an outcome to be judged, never a crash of the harness (MemoryError excepted: see with_budget)
 
 
 def run_under_all(mod, B, memo_sets=None):
